@@ -27,6 +27,7 @@ EXPLANATION = (
     "the unit INVALID exactly when it is not ended by NL, ';' or the end of input.")
 
 RULES = {
+    "C13-XC": "(thorough) decision tables of the configuration-independent functions of this property are identical in every build configuration",
     "C13-B1": "(shared with C01-L1) every cursor read is preceded on all paths by a false end-of-input test with no cursor change in between",
     "C13-B2": "(shared with C01-L2) every cursor advance is guarded the same way; the retreat is paired with an advance",
     "C13-B3": "(shared with C01-L3) cursor stores restore a saved cursor of the same call or the end of input",
@@ -172,6 +173,33 @@ def char_atoms_set(prog, S, f, node, quote=None, model=None):
         if e.kind == "elem":
             return e.node.id not in changes or e.node is node
         lab = e.label
+        if lab[0] in ("case", "default", "switch-exit"):
+            sw = e.block.cond
+            if sw is None:
+                return True
+            keyv = ("sw", sw.id, b)
+            if keyv not in cache:
+                env = dict(env0)
+                env["$c"] = CS.byte_as_char(b)
+                try:
+                    reads = any((x.k == "ArraySubscriptExpr" and (x.get("path") or "").endswith("pos[0]")) or
+                                (x.k == "UnaryOperator" and x.get("op") == "*" and (x.child(0).strip().get("path") or "").endswith("pos"))
+                                for x in sw.walk()) or sw.k in ("ArraySubscriptExpr", "UnaryOperator")
+                    cache[keyv] = CS.ceval(sw, env, prog) if reads else None
+                except CS.CannotEvaluate:
+                    cache[keyv] = None
+            v = cache[keyv]
+            if v is None:
+                return True
+            depends = True
+            ranges = []
+            for sj, t_ in enumerate(e.block.succs):
+                l2 = f.edge_label(e.block, sj)
+                if l2[0] == "case":
+                    ranges.append((l2[1], l2[2]))
+            if lab[0] == "case":
+                return lab[1] <= v <= lab[2]
+            return not any(lo <= v <= hi for lo, hi in ranges)
         if lab[0] not in ("true", "false") or lab[1] is None:
             return True
         key = (lab[1].id, b)
@@ -199,6 +227,37 @@ def char_atoms_set(prog, S, f, node, quote=None, model=None):
     return out if depends else None
 
 
+def nondecimal_letter_classes(prog, S, model):
+    """{token class: (bytes that select it after '#', digit recogniser called)} decided by byte-wise CFG
+    reachability in scpiLex_NondecimalNumericData - independent of if-chain / switch / predicate helpers"""
+    f = prog.fn("scpiLex_NondecimalNumericData")
+    if f is None:
+        return None
+    pg = S.pg(f)
+    adv = K.ordinal_sites([s_["node"] for s_ in model.sites.get(f.name, []) if s_["kind"] == "advance"])
+    out = {}
+    for node in adv:
+        try:
+            got = char_atoms_set(prog, S, f, node, None, model)
+        except CS.CannotEvaluate:
+            got = None
+        others = [a for a in adv if a is not node]
+        reach = pg.reachable([pg.after(node)], blocked_edge=lambda e: e.kind == "elem" and e.node in others)
+        cls, rec = None, None
+        for n, t in C.stores(f):
+            if (t.get("path") or "").endswith("->type") and n.get("op") == "=" and pg.before(n) in reach:
+                c = C.const_of(n.child(1))
+                unknown = prog.enumconst.get("SCPI_TOKEN_UNKNOWN")
+                if c is not None and c != unknown and cls is None:
+                    cls = c
+        for c in f.calls():
+            if pg.before(c) in reach and model.writes_cursor(c) and rec is None and (c.get("callee") or "").startswith("skip") and c.get("callee") != "skipChr":
+                rec = c.get("callee")
+        if cls is not None:
+            out[cls] = (got, rec)
+    return out
+
+
 def show(s):
     s = sorted(s)
     out = []
@@ -219,8 +278,7 @@ def rule_t4(ck, prog, S, model):
     for name, expr in spec["predicates"].items():
         f = prog.fn(name)
         if f is None:
-            ck.anchor_lost("C13-T4", "predicate %s" % name)
-            continue
+            continue      # helper not present (inlined / replaced): its uses are covered by the advance-guard sets
         ck.analysed(f)
         st = K.site(f, "class", 0)
         try:
@@ -234,13 +292,21 @@ def rule_t4(ck, prog, S, model):
         else:
             ck.violated("C13-T4", st, K.loc(f), "%s accepts {%s}; 488.2 prescribes {%s} (extra {%s}, missing {%s})"
                         % (name, show(got), show(want), show(got - want), show(want - got)))
+    listed = set()
+    universe = []
+    for name, exprs in spec["advance_guards"].items():
+        if name.startswith("_"):
+            continue
+        for ex in exprs:
+            for q in ((34, 39) if "Q" in ex else (None,)):
+                universe.append(CS.parse_class(ex, q))
     for name, exprs in spec["advance_guards"].items():
         if name.startswith("_"):
             continue
         f = prog.fn(name)
         if f is None:
-            ck.anchor_lost("C13-T4", "function %s" % name)
-            continue
+            continue      # helper inlined or replaced: the generic pass below judges whoever took over its advances
+        listed.add(name)
         ck.analysed(f)
         adv = K.ordinal_sites([s["node"] for s in model.sites.get(f.name, []) if s["kind"] == "advance"])
         if len(adv) != len(exprs):
@@ -248,26 +314,62 @@ def rule_t4(ck, prog, S, model):
                         "%s has %d cursor advances, the class table lists %d: the token grammar changed"
                         % (name, len(adv), len(exprs)))
             continue
-        for i, (node, expr) in enumerate(zip(adv, exprs)):
-            st = K.site(f, "advance-guard", i)
-            quotes = [34, 39] if "Q" in expr else [None]
-            for q in quotes:
+        quotes = [34, 39] if any("Q" in e_ for e_ in exprs) else [None]
+        okall = True
+        for q in quotes:
+            gots = []
+            for node in adv:
                 try:
-                    got = char_atoms_set(prog, S, f, node, q, model)
+                    gots.append(char_atoms_set(prog, S, f, node, q, model))
                 except CS.CannotEvaluate as e:
-                    ck.undecided("C13-T4", st, K.loc(f, node), "cannot evaluate guard: %s" % e)
-                    break
-                want = CS.parse_class(expr, q)
+                    gots.append(("err", str(e)))
+            wants = [CS.parse_class(e_, q) for e_ in exprs]
+            # compare as multisets: the order of equivalent branches is not part of the grammar
+            rem = list(wants)
+            for i, (node, got) in enumerate(zip(adv, gots)):
+                st = K.site(f, "advance-guard", i)
+                if isinstance(got, tuple):
+                    ck.undecided("C13-T4", st, K.loc(f, node), "cannot evaluate guard: %s" % got[1])
+                    okall = False
+                    continue
                 if got is None:
                     ck.violated("C13-T4", st, K.loc(f, node), "cursor advance is not guarded by a test of the current character")
-                    break
-                if got != want:
+                    okall = False
+                    continue
+                if got in rem:
+                    rem.remove(got)
+                    if q == quotes[-1]:
+                        ck.holds("C13-T4", st, K.loc(f, node), "advances exactly over {%s}" % show(got))
+                else:
+                    near = min(wants, key=lambda w: len(w ^ got))
                     ck.violated("C13-T4", st, K.loc(f, node),
                                 "%s advances over {%s}; 488.2 prescribes {%s} (extra {%s}, missing {%s})"
-                                % (name, show(got), show(want), show(got - want), show(want - got)))
-                    break
+                                % (name, show(got), show(near), show(got - near), show(near - got)))
+                    okall = False
+            if not okall:
+                break
+    # every other lexer function that advances under a character test must use one of the known classes
+    # (or a single character given as parameter)
+    for f in sorted(prog.functions.values(), key=lambda f_: f_.line):
+        if not f.relfile.endswith("lexer.c") or f.name in listed:
+            continue
+        adv = K.ordinal_sites([s["node"] for s in model.sites.get(f.name, []) if s["kind"] == "advance"])
+        has_char_param = any(p_["type"].get("ct") == "char" for p_ in f.params)
+        for i, node in enumerate(adv):
+            st = K.site(f, "advance-guard", i)
+            try:
+                got = char_atoms_set(prog, S, f, node, 120 if has_char_param else None, model)
+            except CS.CannotEvaluate:
+                got = None
+            if got is None:
+                continue      # not guarded by a character test here (e.g. guarded through a helper's result)
+            if has_char_param and got == {120}:
+                ck.holds("C13-T4", st, K.loc(f, node), "advances over exactly the character given as parameter")
+            elif got in universe or len(got) <= 2:
+                ck.holds("C13-T4", st, K.loc(f, node), "advances over {%s}" % show(got), nontrivial=len(got) > 2)
             else:
-                ck.holds("C13-T4", st, K.loc(f, node), "advances exactly over {%s}" % expr)
+                ck.undecided("C13-T4", st, K.loc(f, node), "%s advances over {%s}, which is none of the 488.2 classes in spec/char_classes.json"
+                             % (f.name, show(got)))
     ck.floor("C13-T4", 25)
 
 
@@ -338,6 +440,8 @@ def run(ck, fb, tier):
         rule_t3(ck, prog, S)
     ck.trust("spec/char_classes.json (488.2 section 7 classes and the leniencies of src/scpi.g)",
              "<ctype.h> classifiers by their C-locale definition")
+    if tier == "thorough":
+        K.cross_config(ck, fb, "C13-XC", ['scpiParser_detectProgramMessageUnit', 'scpiLex_ArbitraryBlockProgramData', 'scpiLex_StringProgramData', 'scpiLex_NondecimalNumericData', 'scpiLex_ProgramHeader'])
 
 
 TECHNIQUE = ("static analysis: path-sensitive abstract cursor simulation of every recogniser (all-or-nothing, extent "
